@@ -418,6 +418,29 @@ pub fn preset_case_session<C: Crypto>(
     Ok(())
 }
 
+/// Install an established secure session of any mode (no handshake); returns its unique id.
+pub fn preset_session<C: Crypto>(
+    matter: &Matter<'_>,
+    crypto: C,
+    local_nodeid: u64,
+    peer_nodeid: u64,
+    local_sess_id: u16,
+    peer_sess_id: u16,
+    peer_addr: Address,
+    mode: SessionMode,
+) -> Result<u32, Error> {
+    let mut session = ReservedSession::reserve_now(matter, crypto)?;
+    session.update(local_nodeid, peer_nodeid, peer_sess_id, local_sess_id, peer_addr, mode, None, None, None, None)?;
+    session.complete();
+    Ok(matter.with_state(|st| {
+        st.verif_sessions()
+            .iter()
+            .find(|s| s.get_local_sess_id() == local_sess_id)
+            .map(|s| s.id())
+            .unwrap()
+    }))
+}
+
 /// Drive a future to completion on this thread with the embassy std time driver.
 pub fn block_on<F: core::future::Future>(f: F) -> F::Output {
     futures_lite::future::block_on(f)
